@@ -33,6 +33,10 @@ func c18Gen(tier string, seed int64) []fw.Case {
 			}
 		}
 	}
+	// the broker stops reading as well (a writer is blocked on the connection that has to be given up)
+	for _, resp := range []int{8, 15} {
+		cs = append(cs, fw.Mk(fmt.Sprintf("stall/resp%d", resp), c18Params{W: "stall", Mode: "stall", Resp: resp}))
+	}
 	// re-subscriptions whose SUBACK is dropped (session-less broker)
 	for _, resp := range []int{8, 15} {
 		cs = append(cs, fw.Mk(fmt.Sprintf("single/resub-lose/resp%d", resp), c18Params{W: "resub", Mode: "single", Resp: resp, Lose: true}))
@@ -53,6 +57,13 @@ func c18Run(c fw.Case, env *fw.Env) fw.Result {
 		for k := 2; k <= n+1; k++ {
 			plans = append(plans, []scen.Fault{{At: k, Kind: scen.DropResp}})
 			plans = append(plans, []scen.Fault{{At: k, Kind: scen.DropReq}}) // the request itself vanishes on a stalled link
+		}
+	case "stall":
+		// exactly the acknowledgement of "b" (third request packet) is dropped resp. the request swallowed: the stall
+		// begins while that acknowledgement is awaited. (A stall at any other moment blocks the client's own next
+		// Write, which no timeout of the library covers - transports are expected to bound their writes themselves.)
+		for i := 0; i < 6; i++ {
+			plans = append(plans, []scen.Fault{{At: 3, Kind: []string{scen.DropResp, scen.DropReq}[i%2]}})
 		}
 	case "triples":
 		// the acknowledgement is dropped on three consecutive connections: first transmission,
